@@ -8,4 +8,4 @@ Extraction "c11_model.ml"
   c11_sl_run c11_sl_run2 c11_sl_run_deep c11_sls_run c11_sls_run2 c11_sl_empty c11_sl_last_addr
   c11_lru_run c11_lrus_run c11_lru_empty
   c11_rv_run c11_rv_run2 c11_rvs_run c11_rvs_run2 c11_rv_empty
-  c11_bv_run c11_bvs_run.
+  c11_bv_run c11_bvs_run c11_bv_val_to_bool.
